@@ -468,7 +468,7 @@ class Listener:
     def __init__(self, rec):
         self.rec = rec
 
-    @wamp.subscribe("com.myapp.topic1", options=SubscribeOptions(details=True))
+    @wamp.subscribe("com.myapp.topic1", options=SubscribeOptions(details=True, match="prefix", get_retained=True))
     def a_first(self, *a, details=None, **kw):
         self.rec.on_handler(2, a, kw, details, True)
 
@@ -904,7 +904,8 @@ def scenario(rng, profile):
         api("register", f0)
         rid0 = R.last_req()
         rx(message.Registered(rid0, 21), dict(t="registered", req=rid0, reg=21))
-    if s._session_id is not None and profile == "c11" and rng.random() < 0.35:
+    dec = rng.random()
+    if s._session_id is not None and (profile == "c11" and dec < 0.35 or profile == "c04" and dec < 0.2):
         # decorated object: two methods, topic1 (details) -> handler id 2, topic2 (no options) -> handler id 3
         lst = Listener(R)
         Listener.a_first.hid = 2
@@ -920,9 +921,10 @@ def scenario(rng, profile):
         rids = list(range(before + 1, R.last_req() + 1))
         sent = [m for m in R.tr.sent[-len(rids):]] if rids else []
         for m in sent:
-            want = "exact"
-            if (m.match or "exact") != want or m.topic not in ("com.myapp.topic1", "com.myapp.topic2", "com.myapp.topic3"):
-                R.bad("faithful", "decorated subscribe sent match=%r topic=%r" % (m.match, m.topic))
+            # each SUBSCRIBE carries the options declared on *its* method (none: the policy its URI implies), nobody else's
+            want, want_gr = ("prefix", True) if m.topic == "com.myapp.topic1" else ("exact", None)
+            if (m.match or "exact") != want or m.get_retained != want_gr or m.topic not in ("com.myapp.topic1", "com.myapp.topic2", "com.myapp.topic3"):
+                R.bad("faithful", "decorated subscribe sent match=%r get_retained=%r topic=%r" % (m.match, m.get_retained, m.topic))
         # the spec sees two subscribe API calls
         want_hs = [2, 3, 3]          # a_first once, b_second once per stacked decorator
         if sorted(m.topic for m in sent) != sorted(["com.myapp.topic1", "com.myapp.topic2", "com.myapp.topic3"][:len(sent)]) and len(sent) == 3:
@@ -953,6 +955,19 @@ def scenario(rng, profile):
             api("subscribe", f1, h=hid)
             rid1 = R.last_req()
             rx(message.Subscribed(rid1, 11), dict(t="subscribed", req=rid1, sub=11, unsub=False))
+    if s._session_id is not None and profile in ("c04", "c10") and rng.random() < 0.15:
+        # a router that answers a second REGISTER with a registration id it has already handed out: a protocol violation, and
+        # the request stays pending like every other (it fails when the session ends; a correct REGISTERED still completes it)
+        rnd_api(force="register")
+        r1 = R.last_req()
+        rnd_api(force="register")
+        r2 = R.last_req()
+        if r1 in pending_ids("register") and r2 in pending_ids("register") and r1 != r2:
+            known_regs.append(21)
+            rx(message.Registered(r1, 21), dict(t="registered", req=r1, reg=21))
+            rx(message.Registered(r2, 21), dict(t="registered", req=r2, reg=21))
+            if rng.random() < 0.5:
+                rx(message.Registered(r2, 22), dict(t="registered", req=r2, reg=22))
     if s._session_id is not None and profile == "c11" and rng.random() < 0.3:
         # a handler gets attached to a subscription id between the UNSUBSCRIBE for that id and its UNSUBSCRIBED: the router
         # has dropped the subscription, so UNSUBSCRIBED ends it for every handler, and a later EVENT for the id is a violation
